@@ -91,6 +91,14 @@ Section Doc.
     Some (map (fun n => if N.eqb (n_meta n) empty_meta then None else Some (n_meta n)) l).
   Definition to_serial (h : hugr) : sdoc :=
     SDoc (save_nodes 0 (h_nodes h)) (save_edges (h_nodes h) (h_links h)) (save_meta (h_nodes h)).
+  (* The property promises that every edge is kept, not where it stands in the `edges` array of the document
+     written: [to_serial] above lists the links in insertion order because the code as it stands does;
+     [to_serial_ord ord] is `_to_serial` with that choice left to the implementation ([ord] rearranges the list
+     of serialised links; admissible = a permutation).  Nodes are NOT rearranged: a node of a document is its
+     index (parents, edges and metadata refer to it, the order of the children of a node is index order). *)
+  Variable ord : list (sport * sport) -> list (sport * sport).
+  Definition to_serial_ord (h : hugr) : sdoc :=
+    SDoc (save_nodes 0 (h_nodes h)) (ord (save_edges (h_nodes h) (h_links h))) (save_meta (h_nodes h)).
 
   (* ---- what the property lets go when a foreign document is re-saved: defaults filled in (per operation:
      [sop_norm]; metadata: a missing list / entry or an empty dict is written as null) and null order offsets
@@ -130,6 +138,14 @@ Section Doc.
   Definition sdoc_eqb (a b : sdoc) : bool :=
     list_eqb (sop_eqb SH sh_eqb) (sd_nodes a) (sd_nodes b) &&
     list_eqb (pair_eqb sport_eqb sport_eqb) (sd_edges a) (sd_edges b) &&
+    option_eqb (list_eqb (option_eqb N.eqb)) (sd_meta a) (sd_meta b).
+  (* the same document as far as the property goes: nodes and metadata position by position (= by node index),
+     the edges as a multiset *)
+  Definition edge_eqb : sport * sport -> sport * sport -> bool := pair_eqb sport_eqb sport_eqb.
+  Definition edges_sameb (a b : list (sport * sport)) : bool := perm_eqb edge_eqb a b.
+  Definition sdoc_sameb (a b : sdoc) : bool :=
+    list_eqb (sop_eqb SH sh_eqb) (sd_nodes a) (sd_nodes b) &&
+    edges_sameb (sd_edges a) (sd_edges b) &&
     option_eqb (list_eqb (option_eqb N.eqb)) (sd_meta a) (sd_meta b).
 End Doc.
 Arguments SDoc {SH}. Arguments Node {H}. Arguments Hugr {H}.
